@@ -178,7 +178,7 @@ func (e *Encoder) writeList(data interface{}) (int, error) {
 func listElem(elemType reflect.Type, item interface{}) reflect.Value {
 	dest := reflect.New(elemType).Elem()
 	if item != nil {
-		setMapEntryPart(dest, EnsureRawValue(item))
+		setMapEntryPart(dest, EnsureRawValue(item), nil)
 	}
 	return dest
 }
